@@ -1,6 +1,9 @@
-    use crate::{PacketTransport, VSource, VSink, VFiles, Result, ZVTError, IntoVErr, ZvtParser, ZvtSerializer, ACK_BYTES, data_block, disk, wd_bytes};
+    use crate::{PathBuf, PacketTransport, VSource, VSink, VFiles, Result, ZVTError, IntoVErr, ZvtParser, ZvtSerializer, ACK_BYTES, data_block, disk, wd_bytes};
     use crate::n6::*;
     use crate::std;
+    // the source file's own `use` list is not extracted: these are the std names a (changed) body may use unqualified
+    use crate::std::io::{Read, Seek, SeekFrom};
+    use crate::std::os::unix::fs::FileExt;
 
     /// offset of the j-th packet boundary in the byte stream `b`
     pub open spec fn off(b: Seq<u8>, j: nat) -> int
@@ -58,6 +61,36 @@
         &&& forall|i: nat| i < j ==> (#[trigger] pkt(b, i)) is Some
     }
     pub open spec fn is_final(p: WriteFileResponse) -> bool { p is CompletionData || p is Abort }
+
+    /// `convert_dir`: std::path / directory probing — outside reach (trusted shell; the id table is not verified)
+    #[verifier::external_body]
+    pub fn convert_dir(dir: &crate::PathBuf) -> (r: Result<VFiles>) { unimplemented!() }
+    /// one announcement entry per recognised file, carrying its id and its true size and nothing else
+    pub open spec fn manifest_ok(p: Seq<super::packets::tlv::File>, files: &VFiles) -> bool {
+        forall|i: int| 0 <= i < p.len() ==> {
+            let e = #[trigger] p[i];
+            &&& e.file_id == Some(*files.listing()[i].0)
+            &&& e.file_size == Some(disk(files.listing()[i].1@).len() as u32)
+            &&& e.file_offset is None && e.payload is None
+        }
+    }
+    /// first half of WriteFile::into_stream: everything in front of the statement that sends the announcement
+    pub fn write_file_manifest(path: crate::PathBuf, password: usize) -> (r: Result<(VFiles, super::packets::WriteFile)>)
+        ensures
+    //@ tag upload.announce C11
+            // the announced list has exactly one entry per recognised file present (in the map's iteration order), with that
+            // file's id and true size
+            r matches Ok((files, packet)) ==> ({
+                &&& packet.password == password
+                &&& packet.tlv matches Some(t) && t.files@.len() == files.listing().len() && manifest_ok(t.files@, &files)
+            }),
+    //@ untag
+    //@ fn src:zvt/src/feig/sequences.rs | impl WriteFile | into_stream | bodyonly macro=try_stream until-stmt=src.write_packet_with_ack append=Ok((files,~packet)) forlist all-loops props=C11
+    //@ loop 0
+            invariant
+                manifest_ok(packets@, &files), packets@.len() == __i, __i <= __it@.len(), __it@ == files.listing(),
+                decreases __it@.len() - __i,
+    //@ end
 
     #[verifier::exec_allows_no_decreases_clause]
     pub fn write_file_exchange<Source: VSource>(packet: super::packets::WriteFile, adpu_size: u32, files: &VFiles, src: &mut PacketTransport<Source>, __sink: &mut VSink<WriteFileResponse>) -> (r: Result<()>)
